@@ -50,7 +50,7 @@ Judge200 ==
        tightSet == {j \in 1..nC : sane(j) /\ LET d == lateOf(j) IN d.w = 0 /\ d.r < 20 * PerMS(RC)}     \* written < 20 ms after its end
    IN
    IF e.err # "" THEN
-      /\ Clause("C09.same", FALSE, <<"body does not parse into chunks", e.err>>)
+      /\ Clause("C09.same", FALSE, <<"body cannot be parsed (and, with DRM, decrypted) into chunks of samples", e.err>>)
       /\ UNCHANGED cnt
    ELSE
    /\ Clause("trace.calls", CallsTile(e.calls, e.blen), "Write calls do not tile the body")
